@@ -5,6 +5,7 @@ import (
 	"encoding/json"
 	"fmt"
 
+	esreader "github.com/siglens/siglens/pkg/es/reader"
 	eswriter "github.com/siglens/siglens/pkg/es/writer"
 	"github.com/valyala/fasthttp"
 )
@@ -18,6 +19,7 @@ var handlers = map[string]func(ctx *fasthttp.RequestCtx, org int64){
 	"getAllAliases": eswriter.ProcessGetAllAliases,
 	"deleteIndex":   eswriter.ProcessDeleteIndex,
 	"putIndex":      eswriter.ProcessPutIndex,
+	"esSearch":      esreader.ProcessSearchRequest,
 }
 
 func RegisterHandler(name string, f func(ctx *fasthttp.RequestCtx, org int64)) { handlers[name] = f }
